@@ -27,6 +27,13 @@ def Rel.prefTargetsGood (I : NodeInv) (σ : Leaves) (pref : Engine) : Rel → Pr
   | .transfer _ _ t => (t.engine = pref → pref.kind = .sql → Good I σ t) ∧ Rel.prefTargetsGood I σ pref t
   | _ => True
 
+/-- No Transfer on the path back-tracking takes holds a payload (true of every tree that has not been processed;
+`attach_payload` on a Transfer is what `Processor.process` does). -/
+def Rel.spineNoPayload (st : Store) : Rel → Prop
+  | .unary _ t _ => Rel.spineNoPayload st t
+  | .transfer oid _ t => (st.get oid).isNone = true ∧ Rel.spineNoPayload st t
+  | _ => True
+
 /-- What `backtrack_unary(op, tree, preferred)` promises about the relation `tree'` it returns
 (`done` = the operation has been applied inside `tree'`; otherwise it still has to be applied on
 top of `tree'`). -/
